@@ -151,4 +151,41 @@ def isGaussianPrep : FOp K G → Bool
 
 end frontend2
 
+/-! ## decisions against absolute tolerances: the purity flag -/
+
+section purity
+variable [Zero K] [One K] [Add K] [Sub K] [Neg K] [Mul K] [Div K] [LT K] [DecidableRel (α := K) (· < ·)]
+
+/-- determinant by Laplace expansion along the first row (stands for `np.linalg.det`; executable for the small
+matrices of the correspondence) -/
+def detN : Nat → List (List K) → K
+  | 0, _ => 1
+  | n + 1, M =>
+    match M with
+    | [] => 1
+    | row :: rest =>
+      (List.range (n + 1)).foldr
+        (fun j acc => (if j % 2 = 0 then 1 else -1) * row.getD j 0 * detN n (rest.map fun r => r.eraseIdx j) + acc) 0
+
+def detL (M : List (List K)) : K := detN M.length M
+
+def powN (x : K) : Nat → K
+  | 0 => 1
+  | n + 1 => x * powN x n
+
+/-- `V / (hbar / 2)` -/
+def normMat (h2 : K) (V : List (List K)) : List (List K) := V.map fun row => row.map fun v => v / h2
+
+/-- `Gaussian.__init__` (`tol = 1e-6`) and, after the `fix:` commit, `BaseGaussianState.__init__`
+(`EQ_TOLERANCE = 1e-10`): `|det(V / (hbar/2)) - 1| < tol`; `det` is a parameter (LAPACK) -/
+def pureNormalised (det : List (List K) → K) (tol s : K) (V : List (List K)) : Bool :=
+  decide (absK (det (normMat (s * s) V) - 1) < tol)
+
+/-- the un-normalised form `|det V - (hbar/2)^(2N)| < tol` (`BaseGaussianState.__init__` before the fix): the
+absolute tolerance is applied to a quantity of dimension `hbar^(2N)` -/
+def pureUnnormalised (det : List (List K) → K) (tol s : K) (V : List (List K)) : Bool :=
+  decide (absK (det V - powN (s * s) V.length) < tol)
+
+end purity
+
 end SFV.Hbar
